@@ -109,6 +109,10 @@ var invalidProbes = []invalidProbe{
 func (c *probeCheck) RunCase(w *core.Worker, idx int, seed uint64, res *core.CaseResult) {
 	rng := core.NewRng(seed)
 	poolName := histPools[idx%4] // presence pool excluded: its C01 known finding would only end histories early
+	if c.id == "C09" && idx%10 == 7 {
+		// (C09 recognises the state diverged by that finding before it re-submits)
+		poolName = histPools[4]
+	}
 	drift := false
 	choicePool := false
 	if c.id == "C09" && idx%5 == 4 {
@@ -543,7 +547,7 @@ func (c *probeCheck) resubmitProbe(run *histRun, rng *core.Rng) bool {
 	lostChild := ""
 	for _, si := range step {
 		for k := range run.m.Live[si.Owner].Expanded() {
-			if _, ok := before.dev[k]; !ok && W[k].Owner == si.Owner {
+			if _, ok := before.dev[k]; !ok {
 				kp := model.Parse(k)
 				for i := 1; i < len(kp); i++ {
 					if presenceContainers[kp[:i].String()] {
